@@ -288,6 +288,42 @@ def js_between_parentheses(node: Node, code: str) -> str:
     return text
 
 #
+# Appends .text to every field(...) reference in a piece of JavaScript code.
+# The closing parenthesis of the reference is found by counting (the
+# identifier may be an expression: field((n + 1))), string literals skipped.
+#
+def field_text(js: str) -> str:
+    out: str = ''
+    i: int = 0
+    while True:
+        k: int = js.find('field(', i)
+        if k < 0:
+            return out + js[i:]
+        depth: int = 0
+        in_string: bool = False
+        j: int = k + 5
+        while j < len(js):
+            ch: str = js[j]
+            if in_string:
+                if ch == '\\':
+                    j += 1
+                elif ch == '"':
+                    in_string = False
+            elif ch == '"':
+                in_string = True
+            elif ch == '(':
+                depth += 1
+            elif ch == ')':
+                depth -= 1
+                if depth == 0:
+                    break
+            j += 1
+        if j >= len(js):
+            return out + js[i:]
+        out = out + js[i:j + 1] + '.text'
+        i = j + 1
+
+#
 # Special Assign Operation class.
 # 
 class SpAssignOperation(Node):
@@ -309,9 +345,7 @@ class SpAssignOperation(Node):
     def generate_js(self, indentation: int, factory_method: bool) -> str:
         l = cast(Node, self.left)
         r = cast(Node, self.right)
-        left: str = l.generate_js(indentation, factory_method);
-        if re.search('field\\([^\\)]+\\)', left):
-            left = re.sub('(field\\([^\\)]+\\))', '\\1.text', left)
+        left: str = field_text(l.generate_js(indentation, factory_method))
         
         if self.mode == 'after':
             return vsprintf("%s = new LingoString(%s + %s)", left, left,
